@@ -116,6 +116,12 @@ _PART = None
 def _silence():
     devnull = open(os.devnull, 'w')
     sys.stdout = devnull
+    try:
+        os.dup2(devnull.fileno(), 1)       # native libraries (SuperLU, KLU) print to fd 1
+        if os.environ.get('VMC_DEBUG') != '1':
+            os.dup2(devnull.fileno(), 2)
+    except OSError:
+        pass
     if os.environ.get('VMC_DEBUG') != '1':
         sys.stderr = devnull
         import warnings
@@ -248,6 +254,7 @@ class _Worker:
 
     def send(self, chunk):
         self.pending = list(chunk)
+        self.last = time.time()
         self.conn.send(chunk)
 
     def close(self):
@@ -286,10 +293,20 @@ def run_cases(part, cases, nproc=None):
                 w.send(queue.pop())
                 busy[w.conn] = w
             ready = mpc.wait(list(busy), timeout=5.0)
+            # watchdog: native code cannot be interrupted by the in-process alarm
+            now = time.time()
+            for conn, w in list(busy.items()):
+                if conn not in ready and now - w.last > part.timeout + 20.0:
+                    try:
+                        os.kill(w.pid, signal.SIGKILL)
+                    except ProcessLookupError:
+                        pass
+                    w.killed = True
             for conn in ready:
                 w = busy[conn]
                 try:
                     msg = conn.recv()
+                    w.last = time.time()
                 except (EOFError, ConnectionResetError, OSError):
                     # worker died while executing w.pending[0]
                     try:
@@ -311,8 +328,11 @@ def run_cases(part, cases, nproc=None):
                     if rest:
                         queue.append(rest)
                     if case is not None:
-                        yield ('crash', case, f'worker process died (wait status {status}, signal {sig})',
-                               None, None, None, None, 0.0)
+                        if getattr(w, 'killed', False):
+                            yield ('timeout', case, None, None, None, None, None, part.timeout)
+                        else:
+                            yield ('crash', case, f'worker process died (wait status {status}, signal {sig})',
+                                   None, None, None, None, 0.0)
                     continue
                 if msg[0] == 'chunk-done':
                     del busy[conn]
@@ -378,6 +398,7 @@ class CheckRun:
         t0 = time.time()
         n = 0
         first_digest = {}
+        clean = []
         pstates = set()
         pviol = 0
         for kind, case, obs, viol, nontriv, trans, states, dt in run_cases(part, cases):
@@ -407,7 +428,12 @@ class CheckRun:
             for v in viol:
                 pviol += 1
                 self._violation(part, case, obs, v)
-        # determinism audit: re-run a few executions in fresh worker processes
+            if kind == 'ok' and not viol:
+                clean.append(case)
+        # determinism audit (on executions that completed without a finding: crashes and hangs of native code
+        # caused by a recorded defect are not reproducible bit for bit)
+        # re-run a few executions in fresh worker processes
+        cases = clean
         if audit and cases and not self.harness_errors:
             pick = [cases[i] for i in sorted(self.rng.sample(range(len(cases)), min(audit, len(cases))))]
             for kind, case, obs, viol, nontriv, trans, states, dt in run_cases(part, pick, nproc=2):
